@@ -250,7 +250,17 @@ def shape(ctx, expr, args=None, ret=None, hoistable=True, byref=False, turbofish
         shapes.append((10 * ctx.p.get('kwvars', 0.02), 'kwvar'))
     if ctx.p.get('mk', 0.08) > 0:
         shapes.append((10 * ctx.p.get('mk', 0.08), 'mk'))
+    if ctx.p.get('exotic', 0.05) > 0 and expr.startswith('w::'):
+        shapes.append((10 * ctx.p.get('exotic', 0.05), 'exotic'))
     s = ctx.pick_w(shapes)
+    if s == 'exotic':
+        # expression forms a user may legally write as an operand: keyword expressions ending in a brace group, operator
+        # look-alikes in front of it (or-patterns, comparison), `->` / `,` / `>>` inside a turbofish, closures returning the
+        # callback. Constructing a callback is silent, so writing `expr` in two arms changes nothing observable.
+        forms = EXOTIC_FORMS
+        k = ctx.p.get('exotic_form')
+        f = forms[k] if k is not None else ctx.rng.choice(forms)
+        return Operand(f.replace('EXPR', expr))
     if s == 'mk':
         # the evaluation of the (non-block) operand EXPRESSION itself is an event: exactly once, where the documented method
         # call evaluates its argument
@@ -290,6 +300,20 @@ def shape(ctx, expr, args=None, ret=None, hoistable=True, byref=False, turbofish
     return Operand('|%s| -> %s { %s }' % (params, rs(ret), call))
 
 
+EXOTIC_FORMS = [
+    'match 1u8 { 0 | 2 if 1 < 2 => EXPR, _ => EXPR }',
+    'if 1 < 2 { EXPR } else { EXPR }',
+    'if let Some(_) | None = Some(1u8) { EXPR } else { EXPR }',
+    'w::idf::<fn(u8) -> u8, _>(EXPR)',
+    'w::idf::<Vec<Vec<u8>>, _>(EXPR)',
+    'unsafe { EXPR }',
+    'loop { break EXPR; }',
+    '[EXPR; 1][0]',
+    '(EXPR, 0u8).0',
+    '(|| EXPR)()',
+    '(|_: u8| -> _ { EXPR })(0)',
+    '*&EXPR',
+]
 SH_OPS = ['<<', '>>', '|', '^', '&', '+', '-', '*', '/', '%']
 GUARD_NOISE = ['1u32 << 1 > 0', '8u32 >> 1 > 0', '1 < 2', '2 > 1', 'true && !false', 'true || false', '3u8 ^ 1 != 0', '1u32 << 1 >> 1 < 2',
                '-1i32 < 0', 'matches!(1u8, 0..=2)', '!(1 > 2)', '1u8 & 1 == 1']
@@ -2125,6 +2149,34 @@ def slice_programs(slice_name, tier, master_seed, base_id):
                             j = text.find('>>>', j + 1)
                         return False
                     add(p, fam, 'sk-noise-%s-%s' % (op, inside), require=req)
+    if slice_name == 'ops':
+        # skeleton: every exotic operand form once per family (sync families also inside a wrapper)
+        for fam in fams:
+            for fi, form in enumerate(EXOTIC_FORMS):
+                for inside in ((False, True) if fam[0] == 'sync' else (False,)):
+                    p = dict(prof)
+                    p['exotic'] = 0.7
+                    p['exotic_form'] = fi
+                    p['captures'] = 0.0
+                    p['closures'] = 0.0
+                    p['turbofish'] = 0.0
+                    p['mk'] = 0.0
+                    p['wrappers'] = 1.5 if inside else 0.0
+                    head = form.split('EXPR')[0]
+
+                    def reqx(text, head=head, inside=inside):
+                        if not inside:
+                            return head in text
+                        j = text.find('>>>')
+                        while j >= 0:
+                            rest = text[j + 3:]
+                            end = rest.find('<<<')
+                            seg = rest if end < 0 else rest[:end]
+                            if head in seg:
+                                return True
+                            j = text.find('>>>', j + 1)
+                        return False
+                    add(p, fam, 'sk-exotic-%d-%s' % (fi, inside), require=reqx)
     if slice_name == 'ops':
         # the evaluation of a non-block operand EXPRESSION is observed (`w::mk`), each operand-taking operator emphasised once
         for fam in fams:
